@@ -449,7 +449,7 @@ func c19GenTree(r *Rand, elems []string, fold bool) []string {
 }
 
 var c19Prefixes = []string{"", ".", "..", "./a", "a/", "a//b", "a/../b", "/", "/abs", "a/.", "../x", "x/..", "a/./b", "//a", "a\nb", "é", "../a/..", "a", "b",
-	"./", "a/b/../..", "mod@v1", ".a", "..a"}
+	"./", "a/b/../..", "mod@v1", ".a", "..a", "../..", "../../a", "/..", "/../a", "a/../../b", "x/."}
 
 func c19GenPrefix(r *Rand) string {
 	switch r.Intn(10) {
@@ -772,7 +772,7 @@ func oracleC19(g *Gen, n int) {
 			}
 		}
 		// (5) zip / directory agreement for module zips produced by the zip package
-		if g.Chance(12) {
+		if g.Chance(40) {
 			c19OracleZipDir(g)
 		}
 	}
